@@ -45,7 +45,21 @@ def scenario(seed: int) -> list:
             fail = {(j, k) for j in range(njobs) for k in range(6) if rng.random() < 0.35}
             counts = {}
 
+            callfail = {j for j in range(njobs) if rng.random() < 0.3}    # these raise when CALLED, not when awaited
+
             def make(j):
+                if j in callfail and j != 0:
+                    def plain():
+                        # an ordinary callable that returns an awaitable, or raises before it gets that far
+                        k = counts.get(j, 0)
+                        counts[j] = k + 1
+                        entered.append([j, k, clock.ns])
+                        if (j, k) in fail:
+                            raised.append(['exec', j, k])
+                            raise UserErr(['exec', j, k])
+                        return asyncio.sleep(0)
+                    return plain
+
                 async def coro():
                     k = counts.get(j, 0)
                     counts[j] = k + 1
@@ -90,6 +104,14 @@ def scenario(seed: int) -> list:
             await drain(loop)
             if sched.timer is not None:
                 sched.timer.cancel()
+            # one start per due time: a failure must not make the scheduler start the job again for the same due time
+            for j in range(njobs):
+                iv = (j + 1) * S
+                want = (clock.ns - t0) // iv
+                got = sum(1 for e in entered if e[0] == j)
+                if got != want:
+                    bad.append(f'seed {seed} [{kind}]: job {j} (every {j + 1} s) was started {got} times, '
+                               f'{want} due times passed; call-time failures: {sorted(callfail)}')
             hs = sorted(map(json.dumps, handled))
             rs = sorted(map(json.dumps, raised))
             if hs != rs:
@@ -109,12 +131,226 @@ def scenario(seed: int) -> list:
     return bad
 
 
+def scenario_handler(seed: int) -> list:
+    """C10 with an exception handler that REACTS: when job A fails the handler cancels / pauses a companion job W whose
+    own on_finished / on_update callback fails too, so a second exception is processed while the handler is still
+    running.  Every raised exception must reach the handler exactly once, the job B due at the same instant and the
+    later job C still run, W ends as the reaction says.  (Synchronous executor; the property excludes nothing of
+    this: 'any subset of callables, coroutines, callbacks and triggers raise at any of their invocations'.)"""
+    from whenever import Instant
+    from eascheduler.builder.jobs import JobBuilder
+    from eascheduler.builder.triggers import TriggerObject
+    from eascheduler.errors.handler import default_exception_handler, set_exception_handler
+    from eascheduler.executor.base import SyncExecutor
+    from eascheduler.schedulers.async_scheduler import AsyncScheduler
+    from harness.sched_impl import ScriptProducer, UserErr
+    from lib.vloop import EPOCH0_NS, drain, virtual_time
+
+    rng = random.Random(f'handler-{seed}')
+    bad = []
+    t0 = EPOCH0_NS
+    S = 10**9
+    with virtual_time(t0) as (clock, loop):
+        asyncio.set_event_loop(loop)
+        handled, raised, ran = [], [], []
+
+        class RT:
+            ev = []
+        rt = RT()
+
+        async def main():
+            sched = AsyncScheduler()
+            builder = JobBuilder(sched, lambda f, a, k: SyncExecutor(f, a, k))
+            reaction = rng.choice(['cancel', 'pause', 'cancel'])
+            w_recurring = rng.random() < 0.5
+            ncb = rng.choice([1, 2])
+            cell = {}
+
+            def w_cb(i):
+                def cb(job):
+                    raised.append(['cb', i])
+                    raise UserErr(['cb', i])
+                return cb
+            if w_recurring:
+                w = builder.at(TriggerObject(ScriptProducer({'start': t0, 'iv': 3600 * S, 'fail': set()},
+                                                            {'j': 9, 'k': 0}, rt)), lambda: ran.append('W'))
+            else:
+                w = builder.once(Instant.from_timestamp_nanos(t0 + 3600 * S), lambda: ran.append('W'))
+                reaction = 'cancel'
+            for i in range(ncb):
+                (w._job.on_finished if reaction == 'cancel' else w._job.on_update).register(w_cb(i))
+            cell['done'] = False
+
+            def handler(e):
+                handled.append(e.payload if isinstance(e, UserErr) else ['other', repr(e)])
+                if isinstance(e, UserErr) and e.payload == ['exec', 'A'] and not cell['done']:
+                    cell['done'] = True
+                    (w.cancel if reaction == 'cancel' else w.pause)()
+            set_exception_handler(handler)
+
+            def fail_a():
+                ran.append('A')
+                raised.append(['exec', 'A'])
+                raise UserErr(['exec', 'A'])
+            at = t0 + rng.choice([1, 2, 5]) * S
+            order = ['A', 'B']
+            rng.shuffle(order)
+            for name in order:
+                if name == 'A':
+                    builder.once(Instant.from_timestamp_nanos(at), fail_a)
+                else:
+                    builder.once(Instant.from_timestamp_nanos(at), lambda: ran.append('B'))
+            builder.once(Instant.from_timestamp_nanos(at + S), lambda: ran.append('C'))
+            clock.set(at)
+            await drain(loop)
+            clock.set(at + S)
+            await drain(loop)
+            if sched.timer is not None:
+                sched.timer.cancel()
+            tag = f'handler-seed {seed} [{reaction}, recurring={w_recurring}, callbacks={ncb}]'
+            hs, rs = sorted(map(json.dumps, handled)), sorted(map(json.dumps, raised))
+            if hs != rs:
+                bad.append(f'{tag}: exception handler received {hs}, raised were {rs}')
+            if sorted(ran) != ['A', 'B', 'C']:
+                bad.append(f'{tag}: executed {ran}, expected A, B and C once each')
+            want = 'finished' if reaction == 'cancel' else 'paused'
+            if w._job.status.value != want:
+                bad.append(f'{tag}: companion job is {w._job.status.value}, expected {want}')
+        try:
+            loop.run_until_complete(main())
+        finally:
+            asyncio.set_event_loop(None)
+            set_exception_handler(default_exception_handler)
+    return bad
+
+
+def scenario_remove_all(seed: int) -> list:
+    """AsyncScheduler.remove_all() against the history it is modelled as (SchedRemoveAll.v): two identical
+    schedulers; on one remove_all() is called, on the twin every queued job is cancelled from the back of the
+    queue to the front.  Both must end in the same state, and - theorem remove_all_spec - nothing is executed
+    meanwhile, the queue is empty, the timer disarmed, exactly the queued jobs are finished (on_finished once each,
+    taken out of the store), paused jobs are left alone."""
+    from whenever import Instant, TimeDelta
+    from eascheduler.builder.jobs import JobBuilder
+    from eascheduler.builder.triggers import TriggerObject
+    from eascheduler.errors.handler import default_exception_handler, set_exception_handler
+    from eascheduler.executor.base import SyncExecutor
+    from eascheduler.job_stores import InMemoryStore
+    from eascheduler.schedulers.async_scheduler import AsyncScheduler
+    from harness.sched_impl import ScriptProducer
+    from lib.vloop import EPOCH0_NS, drain, virtual_time
+
+    rng = random.Random(f'removeall-{seed}')
+    bad = []
+    t0 = EPOCH0_NS
+    S = 10**9
+    with virtual_time(t0) as (clock, loop):
+        asyncio.set_event_loop(loop)
+        handled = []
+
+        class RT:
+            ev = []
+        rt = RT()
+        plan = []
+        for j in range(rng.choice([1, 2, 3, 5, 7])):
+            plan.append((rng.choice(['once', 'once', 'at', 'countdown', 'countdown_idle', 'at_paused']),
+                         rng.choice([1, 2, 2, 3, 5, 8]) * S, rng.random() < 0.5))
+        advance = rng.choice([0, 1, 2, 4, 9]) * S
+        enabled = rng.random() < 0.8
+
+        def build(tag):
+            sched = AsyncScheduler(enabled=enabled)
+            store = InMemoryStore()
+            builder = JobBuilder(sched, lambda f, a, k: SyncExecutor(f, a, k), store)
+            log = {'exec': [], 'fin': [], 'upd': []}
+            ctrls = []
+            for j, (kind, d, cb) in enumerate(plan):
+                fn = (lambda j=j: log['exec'].append([j, clock.ns]))
+                if kind == 'once':
+                    c = builder.once(Instant.from_timestamp_nanos(t0 + d), fn, job_id=j)
+                elif kind in ('at', 'at_paused'):
+                    c = builder.at(TriggerObject(ScriptProducer({'start': t0, 'iv': d, 'fail': set()},
+                                                                {'j': j, 'k': 0}, rt)), fn, job_id=j)
+                    if kind == 'at_paused':
+                        c.pause()
+                else:
+                    c = builder.countdown(TimeDelta(nanoseconds=d), fn, job_id=j)
+                    if kind == 'countdown':
+                        c.reset()
+                if cb:
+                    c._job.on_finished.register(lambda job, j=j: log['fin'].append(j))
+                    c._job.on_update.register(lambda job, j=j: log['upd'].append(j))
+                ctrls.append(c)
+            return sched, store, log, ctrls
+
+        def view(sched, store, log, ctrls):
+            return {'queue': [ctrls.index(next(c for c in ctrls if c._job is jb)) for jb in sched.jobs],
+                    'timer': sched.timer is not None,
+                    'jobs': [[c._job.status.value, None if c._job.next_run is None else c._job.next_run.timestamp_nanos(),
+                              c._job._scheduler is not None] for c in ctrls],
+                    'store': sorted(store._jobs), 'log': {k: list(v) for k, v in log.items()}}
+
+        async def main():
+            set_exception_handler(lambda e: handled.append(repr(e)))
+            a = build('a')
+            b = build('b')
+            await drain(loop)
+            clock.set(t0 + advance)          # the loop is NOT given a chance to run: some jobs are overdue now
+            before = view(*a)
+            if before != view(*b):
+                bad.append(f'removeall-seed {seed}: twin schedulers differ before the operation')
+                return
+            try:
+                a[0].remove_all()
+            except Exception as e:      # noqa: BLE001
+                bad.append(f'removeall-seed {seed} plan={plan} advance={advance}: remove_all() raised {e!r}; '
+                           f'executed meanwhile: {a[2]["exec"][len(before["log"]["exec"]):]}')
+                return
+            for jb in tuple(reversed(b[0].jobs)):
+                jb.job_finish()
+            va, vb = view(*a), view(*b)
+            tag = f'removeall-seed {seed} plan={plan} advance={advance} enabled={enabled}'
+            if va != vb:
+                bad.append(f'{tag}: remove_all() {va} differs from cancelling the queue back to front {vb}')
+            if va['log']['exec'] != before['log']['exec']:
+                bad.append(f'{tag}: remove_all() executed jobs: {va["log"]["exec"]}')
+            if va['queue'] or va['timer']:
+                bad.append(f'{tag}: after remove_all() queue={va["queue"]} timer armed={va["timer"]}')
+            for j, (x, y) in enumerate(zip(before['jobs'], va['jobs'])):
+                if j in before['queue']:
+                    if y != ['finished', None, False]:
+                        bad.append(f'{tag}: queued job {j} is {y} after remove_all()')
+                    if j in va['store']:
+                        bad.append(f'{tag}: finished job {j} is still in the job store')
+                    if plan[j][2] and va['log']['fin'].count(j) != 1:
+                        bad.append(f'{tag}: on_finished of job {j} ran {va["log"]["fin"].count(j)} times')
+                elif x != y:
+                    bad.append(f'{tag}: job {j} was not queued but changed {x} -> {y}')
+            if handled:
+                bad.append(f'{tag}: exceptions {handled[:3]}')
+            for sch in (a[0], b[0]):
+                if sch.timer is not None:
+                    sch.timer.cancel()
+        try:
+            loop.run_until_complete(main())
+        finally:
+            asyncio.set_event_loop(None)
+            set_exception_handler(default_exception_handler)
+    return bad
+
+
 def main() -> int:
     n = int(sys.argv[1]) if len(sys.argv) > 1 else 40
     seed0 = int(sys.argv[2]) if len(sys.argv) > 2 else 0
+    which = sys.argv[3] if len(sys.argv) > 3 else 'all'
     out = []
     for i in range(n):
-        out += scenario(seed0 * 1000 + i)
+        if which in ('all', 'async'):
+            out += scenario(seed0 * 1000 + i)
+        if which in ('all', 'handler'):
+            out += scenario_handler(seed0 * 1000 + i)
+        if which in ('all', 'removeall'):
+            out += scenario_remove_all(seed0 * 1000 + i)
     json.dump(out[:20], sys.stdout)
     return 0
 
